@@ -7,13 +7,21 @@ def E(cls, flavour, runs, budget_s=150, **kw):
     return d
 
 PLANS = {
-    'C05': {'quick': [E('C05', 'plain', 1800, 110), E('C05', 'asan', 250, 60, seed_offset=500000)],
+    'C05': {'quick': [E('C05', 'plain', 1500, 90), E('C05', 'asan', 160, 45, seed_offset=500000, run_wall_s=120)],
             'thorough': [E('C05', 'plain', 100000, 3000), E('C05', 'asan', 10000, 1500, seed_offset=500000)]},
-    'C10': {'quick': [E('C10', 'plain', 2500, 130)],
+    'C10': {'quick': [E('C10', 'plain', 2500, 110)],
             'thorough': [E('C10', 'plain', 200000, 3600), E('C10', 'asan', 5000, 900, seed_offset=500000)]},
-    'C03': {'quick': [E('C03', 'plain', 1500, 120), E('C03', 'asan', 150, 50, seed_offset=500000)],
+    'C03': {'quick': [E('C03', 'plain', 1400, 100), E('C03', 'asan', 120, 45, seed_offset=500000, run_wall_s=120)],
             'thorough': [E('C03', 'plain', 60000, 3600), E('C03', 'asan', 3000, 1200, seed_offset=500000)]},
-    'C06': {'quick': [E('C06', 'plain', 2500, 120)],
+    # C12: seeds 0..1039 enumerate (3-man class, colour assignment, abort step 0..63, abort kind) completely; the rest samples 4-man classes
+    'C12': {'quick': [E('C12', 'plain', 1040 + 10, 140, enumerate=True, run_wall_s=200,
+                        prep=['build/plain/texelsim dtm all3', 'build/plain/texelsim dtm KQvKR', 'build/plain/texelsim dtm KRBvK'])],
+            'thorough': [E('C12', 'plain', 1040 + 1200, 7200, enumerate=True, run_wall_s=600,
+                           prep=['build/plain/texelsim dtm all3 KQQvK KQRvK KQBvK KQNvK KRRvK', 'build/plain/texelsim dtm KRBvK KRNvK KBBvK KBNvK KNNvK',
+                                 'build/plain/texelsim dtm KQvKQ KQvKR KQvKB KQvKN KRvKR', 'build/plain/texelsim dtm KRvKB KRvKN KBvKB KBvKN KNvKN'])]},
+    'C14': {'quick': [E('C14', 'plain', 400, 110, run_wall_s=120)],
+            'thorough': [E('C14', 'plain', 10000, 3600, run_wall_s=300)]},
+    'C06': {'quick': [E('C06', 'plain', 2500, 100)],
             'thorough': [E('C06', 'plain', 80000, 3600)]},
 }
 
